@@ -108,7 +108,8 @@ def data_strategy(draw: Any, allow_empty: bool = False) -> dict[str, Any]:
     if d(st.integers(0, 3)) == 0:
         data["z"] = None
     data["a b"] = data["a-b"]  # only reachable as ['a b'] (Cfg.spaced_names)
-    data.update({"empty": data["s"], "blank": data["m"], "for": data["t"], "true": data["m"], "continue": 1})
+    data.update({"empty": data["s"], "blank": data["m"], "for": data["t"], "true": data["m"], "continue": 1,
+                 "limit": data["m"], "reversed": data["t"]})
     return data
 
 
@@ -292,6 +293,9 @@ class Gen:
             self.scope["blank"] = "int"
             self.scope["for"] = "str"
             self.scope["true"] = "int"
+            # loop-argument words: after `for x in a, b` a bare `reversed` is the flag, ['reversed'] the variable
+            self.scope["limit"] = "int"
+            self.scope["reversed"] = "str"
         self.budget = cfg.budget
         self.macros: dict[str, list[tuple[str, bool]]] = {}
         self.partials: dict[str, list[dict[str, Any]]] = {}
@@ -444,6 +448,8 @@ class Gen:
         if kind == "iroot":
             if self.p(0.2):
                 return ["path", self.i(0, 2), [] if self.p(0.6) else [["n", self.pick(["size", "a"])]]]
+            if self.cfg.spaced_names and self.p(0.3):
+                name = self.pick(["for", "empty"])  # [for], [empty.size]: keywords as variable names
             return ["path", ["path", name, []], [] if self.p(0.7) else [["n", "size"]]]
         if kind == "root":
             return ["path", name, []]
@@ -475,6 +481,9 @@ class Gen:
             return ["i", self.i(-2, 3)]
         if r < 8 and "idx" in self.scope:
             return ["p", ["path", "idx", []]]
+        if r == 9 and self.cfg.spaced_names:
+            # inside brackets a keyword is an ordinary variable name: a[true], a[blank]
+            return ["p", ["path", self.pick(["true", "blank", "continue"]), []]]
         return ["i", self.i(0, 1)]
 
     def prim(self, want: str = "any", depth: int | None = None) -> list[Any]:
